@@ -10,6 +10,7 @@ import (
 	"go.uber.org/zap"
 
 	"github.com/anyproto/any-sync/app/logger"
+	"github.com/anyproto/any-sync/util/simhook"
 )
 
 var (
@@ -153,6 +154,7 @@ func (c *oCache) Get(ctx context.Context, id string) (value Object, err error) {
 		}
 		e.lastUsage = time.Now()
 		c.mu.Unlock()
+		simhook.Yield("ocache.Get.afterLookup")
 		reload, err := e.waitClose(ctx, id)
 		if err != nil {
 			return nil, err
@@ -199,6 +201,7 @@ func (c *oCache) Pick(ctx context.Context, id string) (value Object, err error) 
 		return nil, ErrNotExists
 	}
 	c.mu.Unlock()
+	simhook.Yield("ocache.Pick.afterLookup")
 	c.metricsGet(true)
 	return val.waitLoad(ctx, id)
 }
@@ -213,6 +216,7 @@ func (c *oCache) load(ctx context.Context, id string, e *entry) {
 	// loadFunc failing on its own — recorded so Get's waiters can retry.
 	aborted := ctx.Err() != nil
 	cancel()
+	simhook.Yield("ocache.load.beforePublish")
 
 	c.mu.Lock()
 	defer c.mu.Unlock()
@@ -242,6 +246,7 @@ func (c *oCache) Remove(ctx context.Context, id string) (ok bool, err error) {
 		return false, ErrNotExists
 	}
 	c.mu.Unlock()
+	simhook.Yield("ocache.Remove.afterLookup")
 	return c.remove(ctx, e)
 }
 
@@ -249,6 +254,7 @@ func (c *oCache) Remove(ctx context.Context, id string) (ok bool, err error) {
 // guarantees c.mu is released even if setClosed panics, so a panic in the
 // close path can never leave the whole cache wedged (GO-7332 hardening).
 func (c *oCache) closeAndDelete(e *entry) {
+	simhook.Yield("ocache.closeAndDelete")
 	c.mu.Lock()
 	defer c.mu.Unlock()
 	e.setClosed()
@@ -265,6 +271,7 @@ func (c *oCache) removeCtx(loadCtx, closingCtx context.Context, e *entry) (ok bo
 	if _, err = e.waitLoad(loadCtx, e.id); err != nil {
 		return false, err
 	}
+	simhook.Yield("ocache.remove.beforeSetClosing")
 	_, curState, err := e.setClosing(closingCtx, true)
 	if err != nil {
 		return false, err
@@ -294,6 +301,7 @@ func (c *oCache) RemoveSame(ctx context.Context, id string, value Object) (ok bo
 	if !same {
 		return false, ErrNotExists
 	}
+	simhook.Yield("ocache.RemoveSame.afterLookup")
 	return c.remove(ctx, e)
 }
 
@@ -312,6 +320,7 @@ func (c *oCache) TryRemove(id string) (ok bool, err error) {
 	}
 
 	c.mu.Unlock()
+	simhook.Yield("ocache.TryRemove.afterLookup")
 
 	prevState, _, _ := e.setClosing(context.Background(), false)
 	if prevState == entryStateClosing || prevState == entryStateClosed {
@@ -405,8 +414,10 @@ func (c *oCache) GC() {
 	}
 	size := len(c.data)
 	c.mu.Unlock()
+	verifOrder("ocache.GC", toClose)
 	closedNum := 0
 	for _, e := range toClose {
+		simhook.Yield("ocache.GC.entry")
 		prevState, _, _ := e.setClosing(context.Background(), false)
 		if prevState == entryStateClosing || prevState == entryStateClosed {
 			continue
@@ -446,6 +457,7 @@ func (c *oCache) Close() (err error) {
 		toClose = append(toClose, e)
 	}
 	c.mu.Unlock()
+	verifOrder("ocache.Close", toClose)
 	// one deadline for the whole pass, spent only on entries another closer holds:
 	// that closer can be a gc stuck in TryClose on an unresponsive peer. Loads are
 	// already cancelled above, and value.Close takes no ctx, so uncontended entries
@@ -453,6 +465,7 @@ func (c *oCache) Close() (err error) {
 	closingCtx, cancel := context.WithTimeout(context.Background(), c.closeTimeout)
 	defer cancel()
 	for _, e := range toClose {
+		simhook.Yield("ocache.Close.entry")
 		if _, err := c.removeCtx(context.Background(), closingCtx, e); err != nil && err != ErrNotExists {
 			c.log.With("object_id", e.id).Warnf("cache close: object close error: %v", err)
 		}
